@@ -11,6 +11,8 @@ import (
 	"context"
 	"errors"
 	"fmt"
+	"reflect"
+	"sort"
 	"strings"
 	"testing"
 	"time"
@@ -32,16 +34,40 @@ type c01Spy struct {
 	lastAcc  bool
 }
 
-func (s *c01Spy) DoWithAcceptable(req func() error, acc breaker.Acceptable) error {
-	return s.Breaker.DoWithAcceptable(func() error {
+// every Do* form is forwarded to the same form of the real breaker; the spy notes
+// whether req ran, what it returned and the verdict of the predicate in effect
+// (err == nil for the forms without a predicate).
+func (s *c01Spy) wrapReq(req func() error, note bool) func() error {
+	return func() error {
 		s.ran++
-		return req()
-	}, func(err error) bool {
+		err := req()
+		if note {
+			s.verdicts++
+			s.lastErr = err
+			s.lastAcc = err == nil
+		}
+		return err
+	}
+}
+
+func (s *c01Spy) wrapAcc(acc breaker.Acceptable) breaker.Acceptable {
+	return func(err error) bool {
 		s.verdicts++
 		s.lastErr = err
 		s.lastAcc = acc(err)
 		return s.lastAcc
-	})
+	}
+}
+
+func (s *c01Spy) Do(req func() error) error { return s.Breaker.Do(s.wrapReq(req, true)) }
+func (s *c01Spy) DoWithAcceptable(req func() error, acc breaker.Acceptable) error {
+	return s.Breaker.DoWithAcceptable(s.wrapReq(req, false), s.wrapAcc(acc))
+}
+func (s *c01Spy) DoWithFallback(req func() error, fb func(error) error) error {
+	return s.Breaker.DoWithFallback(s.wrapReq(req, true), fb)
+}
+func (s *c01Spy) DoWithFallbackAcceptable(req func() error, fb func(error) error, acc breaker.Acceptable) error {
+	return s.Breaker.DoWithFallbackAcceptable(s.wrapReq(req, false), fb, s.wrapAcc(acc))
 }
 
 var c01PipeCalls int
@@ -319,5 +345,213 @@ func TestVerifC01RedisBenignTable(t *testing.T) {
 			}
 		}
 		m.Case(fmt.Sprint("mixed-success-failure", share, okRow), okRow && tot > acc)
+	}
+}
+
+// ---------------------------------------------------------------- method sweep
+
+var (
+	c01CtxType = reflect.TypeOf((*context.Context)(nil)).Elem()
+	c01ErrType = reflect.TypeOf((*error)(nil)).Elem()
+)
+
+// c01SweepArgs builds generic arguments for a wrapper method against an EMPTY
+// healthy server: every string is a key/value unique to the method (so reads miss),
+// numbers are 1. ok=false: a parameter type the sweep cannot build (listed as exempt).
+func c01SweepArgs(mt reflect.Type, name string, ctx context.Context) (in []reflect.Value, ok bool) {
+	for i := 1; i < mt.NumIn(); i++ { // 0 is the receiver
+		pt := mt.In(i)
+		variadic := mt.IsVariadic() && i == mt.NumIn()-1
+		if variadic {
+			pt = pt.Elem()
+		}
+		v, built := c01SweepValue(pt, fmt.Sprintf("c01-%s-%d", name, i), ctx)
+		if !built {
+			return nil, false
+		}
+		in = append(in, v)
+	}
+	return in, true
+}
+
+func c01SweepValue(pt reflect.Type, key string, ctx context.Context) (reflect.Value, bool) {
+	switch {
+	case pt == c01CtxType:
+		return reflect.ValueOf(ctx), true
+	case pt == reflect.TypeOf(time.Duration(0)):
+		return reflect.ValueOf(time.Second), true
+	case pt == reflect.TypeOf(Pair{}):
+		return reflect.ValueOf(Pair{Member: key, Score: 1}), true
+	case pt == reflect.TypeOf(&GeoLocation{}):
+		return reflect.ValueOf(&GeoLocation{Name: key, Longitude: 1, Latitude: 1}), true
+	case pt == reflect.TypeOf(&GeoRadiusQuery{}):
+		return reflect.ValueOf(&GeoRadiusQuery{Radius: 1, Unit: "km"}), true
+	case pt == reflect.TypeOf(&ZStore{}):
+		return reflect.ValueOf(&ZStore{Keys: []string{key}}), true
+	}
+	switch pt.Kind() {
+	case reflect.String:
+		return reflect.ValueOf(key).Convert(pt), true
+	case reflect.Int, reflect.Int8, reflect.Int16, reflect.Int32, reflect.Int64:
+		return reflect.ValueOf(1).Convert(pt), true
+	case reflect.Uint, reflect.Uint8, reflect.Uint16, reflect.Uint32, reflect.Uint64:
+		return reflect.Zero(pt), true
+	case reflect.Float32, reflect.Float64:
+		return reflect.ValueOf(1.0).Convert(pt), true
+	case reflect.Bool:
+		return reflect.Zero(pt), true
+	case reflect.Interface:
+		if pt.NumMethod() == 0 {
+			return reflect.ValueOf(key).Convert(reflect.TypeOf("")), true // any
+		}
+		return reflect.Value{}, false // Node etc.
+	case reflect.Slice:
+		ev, ok := c01SweepValue(pt.Elem(), key, ctx)
+		if !ok {
+			return reflect.Value{}, false
+		}
+		sl := reflect.MakeSlice(pt, 1, 1)
+		sl.Index(0).Set(ev.Convert(pt.Elem()))
+		return sl, true
+	case reflect.Map:
+		if pt.Key().Kind() == reflect.String && pt.Elem().Kind() == reflect.String {
+			mv := reflect.MakeMap(pt)
+			mv.SetMapIndex(reflect.ValueOf("f").Convert(pt.Key()), reflect.ValueOf("v").Convert(pt.Elem()))
+			return mv, true
+		}
+	case reflect.Func:
+		if pt.NumOut() == 1 && pt.Out(0) == c01ErrType {
+			return reflect.MakeFunc(pt, func([]reflect.Value) []reflect.Value { return []reflect.Value{reflect.Zero(c01ErrType)} }), true
+		}
+	}
+	return reflect.Value{}, false
+}
+
+// TestVerifC01RedisMethodSweep: complete over the reflected method list of *Redis.
+// Every wrapper method is driven with generic arguments against an empty, healthy
+// miniredis (reads miss) and with an already cancelled context. Whatever the
+// protected function returned is seen by the spy; whenever that is nil / redis.Nil
+// (resp. context.Canceled) the outcome must be recorded as a success - whichever
+// Do* form the method uses - and the method is never short-circuited.
+func TestVerifC01RedisMethodSweep(t *testing.T) {
+	m := vk.New(t, "C01", "every exported method of *Redis (reflection) x60 calls on a fresh breaker against an empty healthy miniredis, generic arguments (unique absent keys): all outcomes the protected function returned that are nil / redis.Nil must be judged acceptable by the predicate in effect and the method is never short-circuited; same with an already cancelled context for every ...Ctx method (context.Canceled must be acceptable); methods that do not reach the breaker, cannot be built generically or answer other errors with generic arguments are listed as exempt; non-trivial = method observed returning redis.Nil or context.Canceled")
+	defer m.Done()
+	logx.Disable()
+	stat.SetReporter(nil)
+	timex.VerifFakeClock(1000*time.Hour + time.Duration(m.Rand("clock").Int63n(int64(time.Hour))))
+	defer timex.VerifRealClock()
+	s, err := miniredis.Run()
+	if err != nil {
+		m.Inconclusive("miniredis did not start: %v", err)
+		return
+	}
+	defer s.Close()
+	rds := New(s.Addr())
+	cancelled, cancel := context.WithCancel(context.Background())
+	cancel()
+	per := vk.N(60, 400)
+	rt := reflect.TypeOf(rds)
+	var noBreaker, unbuildable, otherErr, nilMethods, cancelMethods, benignOnly []string
+	for mi := 0; mi < rt.NumMethod(); mi++ {
+		meth := rt.Method(mi)
+		name := meth.Name
+		hasCtx := meth.Type.NumIn() > 1 && meth.Type.In(1) == c01CtxType
+		for pass, ctx := range []context.Context{context.Background(), cancelled} {
+			if pass == 1 && !hasCtx {
+				continue
+			}
+			idx := mi*2 + pass + 1
+			if !m.Only(idx) {
+				continue
+			}
+			in, ok := c01SweepArgs(meth.Type, name, ctx)
+			if !ok {
+				if pass == 0 {
+					unbuildable = append(unbuildable, name)
+				}
+				continue
+			}
+			s.FlushAll()
+			spy := &c01Spy{Breaker: breaker.New()}
+			rds.brk = spy
+			class := "redis.Nil"
+			if pass == 1 {
+				class = "context.Canceled"
+			}
+			desc := fmt.Sprintf("case=%d;(*Redis).%s x%d with generic arguments, %s pass", idx, name, per, class)
+			args := append([]reflect.Value{reflect.ValueOf(rds)}, in...)
+			sawClass, sawOther, calls := 0, "", 0
+			okRow := true
+			for k := 0; k < per && okRow; k++ {
+				before, vb := spy.ran, spy.verdicts
+				_, panicked := vk.Recover(func() { meth.Func.Call(args) })
+				if panicked {
+					sawOther = "panic with generic arguments"
+					break
+				}
+				if spy.ran == before && spy.verdicts == vb {
+					if k == 0 {
+						break // the method did not reach the breaker
+					}
+					// reached the breaker before, now short-circuited
+					if sawOther == "" {
+						m.Violate("C01:benign:redis:method:"+name+":"+class+":dropped", desc, "call #%d was short-circuited although every outcome of the protected function so far was nil / %s", k, class)
+						okRow = false
+					}
+					break
+				}
+				calls++
+				m.Count("sweep_calls", 1)
+				if spy.verdicts == vb {
+					continue
+				}
+				e := spy.lastErr
+				inClass := e == nil || (pass == 0 && e == red.Nil) || (pass == 1 && e == context.Canceled)
+				if !inClass {
+					if sawOther == "" {
+						sawOther = fmt.Sprint(e)
+					}
+					continue
+				}
+				if e != nil {
+					sawClass++
+				}
+				if !spy.lastAcc {
+					m.Violate("C01:benign:redis:method:"+name+":"+class+":predicate", desc, "the protected function of %s returned %v on a healthy server and the predicate in effect judged it a failure", name, e)
+					okRow = false
+				}
+			}
+			switch {
+			case calls == 0 && sawOther == "":
+				if pass == 0 {
+					noBreaker = append(noBreaker, name)
+				}
+			case sawOther != "":
+				otherErr = append(otherErr, fmt.Sprintf("%s[%s]: %s", name, class, sawOther))
+			case sawClass > 0 && pass == 0:
+				nilMethods = append(nilMethods, name)
+			case sawClass > 0:
+				cancelMethods = append(cancelMethods, name)
+			case pass == 0:
+				benignOnly = append(benignOnly, name)
+			}
+			m.Case(fmt.Sprint("sweep-", name, "-", class, okRow), okRow && sawClass > 0)
+		}
+	}
+	for _, l := range []*[]string{&noBreaker, &unbuildable, &otherErr, &nilMethods, &cancelMethods, &benignOnly} {
+		sort.Strings(*l)
+	}
+	m.Count("methods_total", int64(rt.NumMethod()))
+	m.Count("methods_returning_redis_nil", int64(len(nilMethods)))
+	m.Count("methods_returning_context_canceled", int64(len(cancelMethods)))
+	m.Count("methods_only_nil_error", int64(len(benignOnly)))
+	m.Extra("methods_observed_returning_redis.Nil", nilMethods)
+	m.Extra("methods_observed_returning_context.Canceled", len(cancelMethods))
+	m.Extra("exempt_not_reaching_breaker", noBreaker)
+	m.Extra("exempt_unbuildable_arguments", unbuildable)
+	m.Extra("exempt_other_error_with_generic_arguments", otherErr)
+	m.Sample(map[string]any{"methods": rt.NumMethod(), "returning_redis.Nil": nilMethods, "ctx_methods_returning_context.Canceled": len(cancelMethods)})
+	if len(nilMethods) < 3 {
+		m.Inconclusive("only %d methods were observed returning redis.Nil: the sweep did not exercise its subject", len(nilMethods))
 	}
 }
